@@ -8,6 +8,16 @@ HERE = os.path.dirname(os.path.dirname(os.path.abspath(__file__)))
 
 # pid -> (category, technique, level text, level note, design ref)
 CHECKS = {
+    "C11": (
+        "exploration",
+        "Hypothesis: generated Colang 2 programs with rich variables x histories x cut points x {save/restore, ageing, both}; differential oracle live continuation vs restored/aged continuation under identical tie-breaks and a controlled clock",
+        "For every drawn (program, history, cut, mode) two executions from scratch are compared: the live one, and one that at the cut serialises and restores the "
+        "State through state_to_json/json_to_state (must not raise; C09 invariants must hold on the result) and/or advances the interpreter's clock past the 5 s "
+        "clean-up age; the canonicalised outgoing events of every later step must be identical. Fixed program families (one per rich value kind, activated flows "
+        "that restart) are run with EVERY cut point x mode.",
+        "Cuts are between events; set values compared as sets; the LLMRails-level generate(state=...) path is not driven by this check.",
+        "DESIGN.md 4/C11",
+    ),
     "C12": (
         "exploration",
         "exhaustive enumeration of every shipped .co file + Hypothesis grammar-based generation of Colang 1.0/2.x programs; static closure predicate over the compiled element lists",
